@@ -70,7 +70,11 @@ def judge(proj, rec, box, cfg, built, expected, k, mode, sync=True):
     if other:
         v.append(("other-project-file-changed", {"files": other}))
     if mode == "check":
-        if rec.rc == 0 and (sync and not before_handlers):
+        last_n = max((o["n"] for o in ops), default=0)
+        complete_tree = proj.label.startswith("t_complete")
+        if rec.rc == 0 and sync and not before_handlers and complete_tree and k >= last_n:
+            pass    # the signal came with the very last thing the run did (its final summary line): the check had finished
+        elif rec.rc == 0 and (sync and not before_handlers):
             # "an interrupted --check never passes", whether or not the tree has statements without reference
             v.append(("interrupted-check-exited-0", {"tree_complete": not any(s != "original" for s in states.values()) and proj.label.startswith("t_complete")}))
         elif rec.rc == 0 and not sync and not proj.label.startswith("t_complete"):
@@ -114,7 +118,7 @@ def work(job):
         res["counters"]["double_signal_injections"] = 1
     with core.Box(tag="c18") as box:
         cfg = proj.materialise(box)
-        rec = core.run_breadlog(built, box, cfg, check=(mode == "check"), rules=rules, timeout=120)
+        rec = core.run_breadlog(built, box, cfg, check=(mode == "check"), rules=rules, timeout=120, stdio_ops=True)
         fired = [o for o in (rec.shim or []) if o["fired"]]
         if rec.timed_out:
             res["inconclusive"]["timeout"] = 1
@@ -190,12 +194,12 @@ def main(tier):
     table = {}
     for pi, proj in enumerate(projects(tier, ck.seed)):
         for mode in ("edit", "check"):
-            ops, after, rec, expected, lock = fault.clean_reference(built, proj, check=(mode == "check"))
+            ops, after, rec, expected, lock = fault.clean_reference(built, proj, check=(mode == "check"), stdio_ops=True)
             K = len(ops)
             table["%s|%s" % (proj.label, mode)] = K
             ks = list(range(1, K + 1))
             if K > 150:
-                keep = set(o["n"] for o in ops if o["kind"] != "write")
+                keep = set(o["n"] for o in ops if o["kind"] not in ("write",))
                 wr = [o["n"] for o in ops if o["kind"] == "write"]
                 keep |= set(wr[:10]) | set(wr[-10:]) | set(rnd.sample(wr, min(len(wr), 30)))
                 ks = sorted(keep)
@@ -227,7 +231,7 @@ def main(tier):
     ck.extra["ops_per_clean_run"] = table
     ck.exhaustive = all(v <= 150 for v in table.values())
     ck.rule = ("synchronous delivery: for each project and mode the signal (SIGTERM, SIGINT) is raised by the shim immediately before "
-               "operation k, for every k of the clean run (exhaustive per project unless a run has > 150 operations; then all non-write "
+               "operation k - a filesystem operation or the write of a log line to stdout - for every k of the clean run (exhaustive per project unless a run has > 150 operations; then all non-write "
                "operations plus a sample of writes); asynchronous delivery: kill(2) from the harness at seeded random delays over a "
                "150/300-file tree. Oracle: not terminated by the signal (from discovery start on), no exit 0 with work left, no file "
                "started after the one in progress (shim log), every source file original or complete, lock covers every ID on disk; "
@@ -245,7 +249,7 @@ def replay_witness(w, ck=None, built=None):
         return False
     ps = projects(w.get("tier", "quick"), w.get("seed", 0))
     proj = ps[c["project"]]
-    ops, after, rec, expected, lock = fault.clean_reference(built, proj, check=(c["mode"] == "check"))
+    ops, after, rec, expected, lock = fault.clean_reference(built, proj, check=(c["mode"] == "check"), stdio_ops=True)
     job = (built, c["project"], proj, expected, c["k"], c["sig"], c["mode"])
     if c.get("second"):
         job = job + ((c["second"][0], c["second"][1]),)
